@@ -820,6 +820,8 @@ def check(ctx: Ctx) -> None:
 
 F = "pipefunc/cache.py"
 MUTANTS = [
+    Mutant("fallback-stdlib-pickle-first", F, "    data = cloudpickle.dumps(obj)\n    return hashlib.md5(data).hexdigest()  # noqa: S324\n", "    try:\n        data = pickle.dumps(obj)\n    except Exception:  # noqa: BLE001\n        data = cloudpickle.dumps(obj)\n    return hashlib.md5(data).hexdigest()  # noqa: S324\n", ("C15.7-stable",), why="round-6 seed C15/16"),
+    Mutant("nan-to-num-projection", F, "            data = tuple(obj.flatten())\n", "            data = tuple(sys.modules[\"numpy\"].nan_to_num(obj.flatten()))\n", ("C15.6-identity",), why="round-6 seed C15/18"),
     Mutant("marker-per-process", "pipefunc/cache.py", "_HASH_MARKER = \"__CONVERTED__\"\n", "import uuid as _uuid\n_HASH_MARKER = f\"__CONVERTED_{_uuid.uuid4().hex}__\"\n", ("C15.7-stable",), why="round-4 seed C15/10"),
     Mutant("ordereddict-branch-removed", F, "    if isinstance(obj, collections.OrderedDict):\n        return (m, tp, _hashable_mapping(obj, fallback_to_pickle))\n", "", ("C15.2-dispatch",), why="round-2 seed C15/4"),
     Mutant("drop-tp-list", F, "        return (m, tp, _hashable_iterable(obj, fallback_to_pickle))\n    if isinstance(obj, collections.deque)",
